@@ -24,6 +24,7 @@ var c16Pages = []c16Page{
 	{"path-slash", func(k int) string { return fmt.Sprintf("http://example.com/a/b/%d/", k) }, func(i int) string { return fmt.Sprintf("/a/b/%d/", i) }},
 	{"dir-slash", func(k int) string { return "http://example.com/a/b/" }, func(i int) string { return fmt.Sprintf("http://example.com/a/b/?page=%d", i) }},
 	{"escaped", func(k int) string { return fmt.Sprintf("http://example.com/a/b%%20c/%d", k) }, func(i int) string { return fmt.Sprintf("http://example.com/a/b%%20c/%d", i) }},
+	{"query-trailing-slash", func(k int) string { return fmt.Sprintf("http://example.com/gallery?page=%d&back=/news/", k) }, func(i int) string { return fmt.Sprintf("http://example.com/gallery?page=%d&back=/news/", i) }},
 	{"https-port", func(k int) string { return fmt.Sprintf("https://example.com:8443/story-%d.html", k) }, func(i int) string { return fmt.Sprintf("story-%d.html", i) }},
 }
 
@@ -269,7 +270,7 @@ func init() {
 	eng.Register(&eng.Prop{
 		ID:        "C16",
 		DesignRef: "§5 C16",
-		Rule: "6 page-URL families (query, relative query, path with trailing slash, directory with trailing slash, escaped path, https with port and relative file names) x current page k in 1..3 x 6 pager skeletons (numbered, numbered + Prev/Next anchors, Prev/Next only, two pagers, the first two again with a <base href> on another host) x both algorithms; every assignment of <= 2 (quick) / <= 3 (thorough) link slots to one of 22 odd hrefs (javascript:, empty, #, mailto:, off-site, scheme-relative, look-alike host, upper-case host, userinfo, other port, relative file/dir, ../, fragment, ftp:, data:, unparseable, missing href, space in path, JavaScript:). " +
+		Rule: "7 page-URL families (query, query whose last value ends in a slash, relative query, path with trailing slash, directory with trailing slash, escaped path, https with port and relative file names) x current page k in 1..3 x 6 pager skeletons (numbered, numbered + Prev/Next anchors, Prev/Next only, two pagers, the first two again with a <base href> on another host) x both algorithms; every assignment of <= 2 (quick) / <= 3 (thorough) link slots to one of 22 odd hrefs (javascript:, empty, #, mailto:, off-site, scheme-relative, look-alike host, upper-case host, userinfo, other port, relative file/dir, ../, fragment, ftp:, data:, unparseable, missing href, space in path, JavaScript:). " +
 			"Oracle: a non-empty NextPage/PrevPage parses, is http(s), has the page's host (case-insensitively), and equals - after dropping the fragment and one trailing slash, paths compared decoded - the RFC 3986 resolution of some anchor's href against the page URL as supplied. Non-trivial = a link was returned and the document holds >= 1 non-fetchable/off-site href.",
 		Enumerate: c16Enumerate,
 		Check:     c16Check,
